@@ -20,7 +20,7 @@ def run(report):
                          # maintenance: only files not accessed for the survival time are removed; the lock file is the only
                          # file touched, in append mode; the automatic clean-up runs with the default threshold
                          'parso.cache.clear_inactive_cache', 'parso.cache._touch', 'parso.cache._get_cache_clear_lock_path',
-                         'parso.cache._remove_cache_and_update_lock#maint'])
+                         'parso.cache._remove_cache_and_update_lock'])
     report.assume("trusted raises sets of the primitives (pv/obs_effects.py PRIM_RAISES): pickle.load may raise anything, "
                   "open/os.* raise OSError subclasses, pickle.dump raises OSError/PicklingError/RecursionError",
                   "exception-effect analysis pv/effects.py (explicit raises + primitive raises + callee raises, minus "
